@@ -476,6 +476,21 @@ fn prog_once(case: &J, src_override: Option<String>) -> R<J> {
                     let mut push = |what: &str, msg: String| {
                         issues.push(json!({"at":"map","map":mi,"what":what,"msg":msg,"entries": m["entries"]}));
                     };
+                    // C02 speaks about EVERY map that satisfy accepts (also one it should have rejected, or one with
+                    // undeclared names): same CMR, the encoding decodes to that CMR, no panic of the Bit Machine
+                    if rr.satisfy.is_ok() && !(expect == "ok" && m["verdict"].as_str() == Some("none")) {
+                        if !rr.cmr_eq {
+                            push("cmr", "redeem CMR differs from the committed CMR".to_string());
+                        }
+                        match &rr.decode {
+                            Err(e) => push("decode_accepted_map", e.clone()),
+                            Ok(()) if !rr.dec_cmr_eq => push("cmr", "decoded program has another CMR".to_string()),
+                            Ok(()) => {}
+                        }
+                        if rr.exec.starts_with("panic") || rr.exec_direct.starts_with("panic") {
+                            push("exec_panic_accepted_map", rr.exec.clone());
+                        }
+                    }
                     match (&rr.satisfy, expect) {
                         (Ok(()), "err") => push("satisfy_accepts_ill_typed", String::new()),
                         (Err(e), "ok") => {
